@@ -24,7 +24,7 @@ def groups(tier):
             Group('distance.order', 'kad_index', 'C07/index.c', entry='h_order', unwind=33, kind='constant-unwind', bound='32 bytes',
                   clause='the order used on distances is the numeric order of 256-bit values'),
             Group('bucket.upsert', 'kad_bucket', 'C07/bucket.c', entry='h_upsert', unwind=7, extra=['--max-field-sensitivity-array-size', '300'],
-                  unwind_by={'same_id': 33, 'cxx_memcmp': 33, 'h_upsert': 257, 'body': 33, 'str_from_n': 6, 'cxx_strlen': 6}, kind='bounded', backend=['sat', 'cadical'], timeout=600,
+                  unwind_by={'same_id': 33, 'cxx_memcmp': 33, 'h_upsert': 257, 'body': 33, 'str_from_n': 6, 'cxx_strlen': 6}, kind='bounded', backend=['sat', 'cadical'], timeout=1800,
                   checks=['--bounds-check', '--pointer-check'], defines=['CXX_FIXED_STORAGE', 'CXX_VEC_CAP=6', 'B=3'], replay='refresh',
                   bound='a bucket holding at most 3 contacts (so the 16-contact limit is not reached); contact ids range over 256 values; three representative bucket indices',
                   clause='upsert_bucket: the node itself is never held; only the contact\'s own bucket changes; exactly one entry per id, carrying the newest address and deadline; '
